@@ -25,13 +25,9 @@ class FuncWrapper:
     def set_func(self, func):
         self.__call__ = func
 
-    def __eq__(self, other):
-        if isinstance(other, FuncWrapper):
-            return self._key == other._key
-        return NotImplemented
-
-    def __hash__(self):
-        return hash(self._key)
+    # A stub is compared by identity. It belongs to one request and stays unbound until that request is finished,
+    # so a closure referring to the stub of another request (maybe running in another thread)
+    # must never be taken from the shared call cache.
 
 
 CallableT = TypeVar("CallableT", bound=Callable)
